@@ -32,12 +32,12 @@ func sites(c *ev.Ctx) {
 	}
 	fset := token.NewFileSet()
 	nsites := 0
-	filepath.Walk("/repo", func(p string, info os.FileInfo, err error) error {
+	filepath.Walk(repoRoot(), func(p string, info os.FileInfo, err error) error {
 		if err != nil {
 			return nil
 		}
 		if info.IsDir() {
-			if strings.HasPrefix(info.Name(), ".") && p != "/repo" {
+			if strings.HasPrefix(info.Name(), ".") && p != repoRoot() {
 				return filepath.SkipDir
 			}
 			return nil
@@ -102,7 +102,7 @@ func sites(c *ev.Ctx) {
 			nsites++
 			c.Eval(true)
 			pos := fset.Position(call.Pos())
-			site := fmt.Sprintf("%s:%d", strings.TrimPrefix(pos.Filename, "/repo/"), pos.Line)
+			site := fmt.Sprintf("%s:%d", strings.TrimPrefix(pos.Filename, repoRoot()+"/"), pos.Line)
 			args := make([]interface{}, nargs)
 			for i := range args {
 				args[i] = "x"
@@ -137,7 +137,7 @@ func sites(c *ev.Ctx) {
 			n0, ok := placeholders(code)
 			if ok && n0 > 0 && usedAsValue(f, n) {
 				pos := fset.Position(n.Pos())
-				site := fmt.Sprintf("%s:%d", strings.TrimPrefix(pos.Filename, "/repo/"), pos.Line)
+				site := fmt.Sprintf("%s:%d", strings.TrimPrefix(pos.Filename, repoRoot()+"/"), pos.Line)
 				nsites++
 				c.Eval(true)
 				c.Violate("site;bare;"+name, fmt.Sprintf("%s: %s is used as an error value but its template needs %d arguments: rendering it panics", site, name, n0), caseT{Role: "site", Input: site})
@@ -209,7 +209,7 @@ func placeholders(code liberrors.ErrorCode) (n int, ok bool) {
 func codeTable() map[string]liberrors.ErrorCode {
 	out := map[string]liberrors.ErrorCode{}
 	fset := token.NewFileSet()
-	f, err := parser.ParseFile(fset, "/repo/errors/code.go", nil, 0)
+	f, err := parser.ParseFile(fset, repoRoot()+"/errors/code.go", nil, 0)
 	if err != nil {
 		return out
 	}
